@@ -21,23 +21,37 @@ class StaleContract(Exception):
     """A sidecar contract no longer matches the shape of the code (exit 2, undecided)."""
 
 
-_QCACHE = {}
+_QCACHE = {}      # ast id -> bool, cleared at the start of every path (terms of a path stay alive while it is used)
 
 
 def has_quant(t):
-    """True iff the z3 term contains a quantifier anywhere."""
-    todo = [t]
-    seen = set()
-    while todo:
-        u = todo.pop()
+    """True iff the z3 term contains a quantifier anywhere (memoised on sub-terms)."""
+    memo = _QCACHE
+    i0 = t.get_id()
+    r = memo.get(i0)
+    if r is not None:
+        return r
+    stack = [(t, False)]
+    while stack:
+        u, done = stack.pop()
         i = u.get_id()
-        if i in seen:
+        if i in memo:
             continue
-        seen.add(i)
         if z3.is_quantifier(u):
-            return True
-        todo.extend(u.children())
-    return False
+            memo[i] = True
+            continue
+        ch = u.children()
+        if not ch:
+            memo[i] = False
+            continue
+        if done:
+            memo[i] = any(memo.get(c.get_id(), False) for c in ch)
+        else:
+            stack.append((u, True))
+            for c in ch:
+                if c.get_id() not in memo:
+                    stack.append((c, False))
+    return memo[i0]
 
 
 def mentions(t, var):
@@ -222,7 +236,8 @@ class Ctx:
             tf = sb.on_false(self) if sb.on_false is not None else z3.Not(cond)
             # feasibility pruning uses quantifier-free facts only; a quantified side is assumed feasible
             ft = True if has_quant(tt) else self.feasible(tt)
-            ff = True if has_quant(tf) else self.feasible(tf)
+            # if one side is infeasible the other one is feasible (the path condition itself is satisfiable)
+            ff = True if (has_quant(tf) or not ft) else self.feasible(tf)
             if ft and ff:
                 d = True
                 self.decisions.append(True)
@@ -414,6 +429,7 @@ class PathResult:
 
 
 def run_path(run, decisions, fmodel, todo):
+    _QCACHE.clear()
     c = Ctx(decisions, fmodel)
     c.todo = todo
     Ctx.cur = c
